@@ -27,6 +27,7 @@ func make{{.Name}}s(opts ...func(*option[{{.Type}}])) Column {
 					data[offset] = r.Swap{{.Name}}(opts.Merge(data[offset], r.{{.Name}}()))
 				case commit.Delete:
 					fill.Remove(offset)
+					data[offset] = 0 // The next row at this offset must not merge into this value
 				}
 			}
 		}, opts,
